@@ -240,7 +240,7 @@ func main() {
 		os.Exit(0)
 	}
 
-	deadline = time.Now().Add(harness.Pick(c, 15*time.Minute, 4*time.Hour))
+	deadline = time.Now().Add(harness.Pick(c, 30*time.Minute, 6*time.Hour))
 	if f := os.Getenv("C10_PARTS"); f != "" { // development aid
 		partFilter = strings.Split(f, ",")
 		c.Cap("development filter C10_PARTS=" + f + ": only matching parts were run")
